@@ -8,12 +8,13 @@ Nothing in this module decides anything. It
   * projects what amoco returns by reading attributes (addresses, lengths, type, misc, bytes,
     support._map, edges) into the NDJSON traces that specs/CfgTrace.tla validates.
 """
+import contextlib
 import importlib
 import logging
 import os
 import random
+import signal
 import struct
-import traceback
 
 REPO = os.environ.get("VERIF_REPO", "/repo")
 
@@ -37,6 +38,26 @@ _cpu_cache = {}
 
 def quiet():
     logging.disable(logging.CRITICAL)
+
+
+class Timeout(BaseException):
+    """an amoco call did not return within its CPU budget (observed like an exception)"""
+
+
+def _on_alarm(signum, frame):
+    raise Timeout()
+
+
+@contextlib.contextmanager
+def cpu_limit(seconds):
+    """bound the CPU time of the amoco calls made inside (a looping call is an observation, not a hang)"""
+    old = signal.signal(signal.SIGVTALRM, _on_alarm)
+    signal.setitimer(signal.ITIMER_VIRTUAL, seconds)
+    try:
+        yield
+    finally:
+        signal.setitimer(signal.ITIMER_VIRTUAL, 0)
+        signal.signal(signal.SIGVTALRM, old)
 
 
 def cpu_of(isa):
@@ -251,44 +272,56 @@ def sweep_trace(tid, isa, src, buf, start, rng, nops=6):
     p = mkprog(cpu, buf)
     z = lsweep(p)
     loc = cpu.cst(start, cpu.PC().size)
-    t = {"t": tid, "kind": "sweep", "isa": isa, "src": src, "start": start, "buf": list(buf)}
+    t = {"t": tid, "kind": "sweep", "isa": isa, "src": src, "start": start, "buf": list(buf), "exc": "",
+         "seq": [], "ib": [], "blocks": [], "gb": {"ok": 0}, "ops": []}
     try:
-        seq = list(z.sequence(loc))
-        t["seq"] = [[ival(i.address), int(i.length)] + list(flags_of(i)) for i in seq]
-        t["ib"] = [list(i.bytes) for i in seq]
-        blocks = list(z.iterblocks(loc))
-        t["blocks"] = [block_rec(b) for b in blocks]
-        t["gb"] = block_rec(z.getblock(start))
-        ops = []
-        if blocks:
-            for _ in range(nops):
-                bi = rng.randrange(len(blocks))
-                rec = t["blocks"][bi]
-                n = len(rec["ia"])
-                pos = [a - rec["ia"][0] for a in rec["ia"]] + [rec["len"]]
-                fresh = z.getblock(rec["ia"][0])
-                if fresh is None:
-                    continue
-                x = rng.random()
-                if x < 0.5:
-                    i0 = rng.randrange(0, n)
-                    i1 = rng.randrange(i0 + 1, n + 1)
-                    sta, sto = pos[i0], pos[i1]
-                    if rng.random() < 0.12 and rec["len"] > n:      # off an instruction boundary
-                        sta = rng.randrange(0, rec["len"])
-                        sto = rng.randrange(sta, rec["len"] + 1)
-                    r = fresh[sta:sto]
-                    ops.append({"op": "slice", "b": bi + 1, "sta": sta, "sto": sto, "res": block_rec(r)})
-                else:
-                    at = rec["ia"][rng.randrange(n)]
-                    if rng.random() < 0.12:
-                        at = rec["ia"][0] + rng.randrange(0, rec["len"] + 2)
-                    nl = fresh.cut(cpu.cst(at, cpu.PC().size))
-                    ops.append({"op": "cut", "b": bi + 1, "at": at, "nl": int(nl), "res": block_rec(fresh)})
-        t["ops"] = ops
-    except Exception as e:  # a decoder exception ends the sweep: C17's subject, recorded, not judged here
-        return {"t": tid, "kind": "aborted", "isa": isa, "src": src, "start": start, "sig": "<".join(exc_sig(e)[:4])}
+        with cpu_limit(20):
+            _sweep_body(t, z, cpu, loc, start, rng, nops)
+    except (Exception, Timeout) as e:
+        sig = exc_sig(e)
+        if "disassembler.__call__" in sig and not isinstance(e, Timeout):
+            # a decoder exception ends the sweep: C17's subject, recorded, not judged here
+            return {"t": tid, "kind": "aborted", "isa": isa, "src": src, "start": start, "sig": "<".join(sig[:4])}
+        t.update({"exc": type(e).__name__, "seq": [], "ib": [], "blocks": [], "gb": {"ok": 0}, "ops": []})
     return t
+
+
+def _sweep_body(t, z, cpu, loc, start, rng, nops):
+    seq = list(z.sequence(loc))
+    t["seq"] = [[ival(i.address), int(i.length)] + list(flags_of(i)) for i in seq]
+    t["ib"] = [list(i.bytes) for i in seq]
+    blocks = list(z.iterblocks(loc))
+    t["blocks"] = [block_rec(b) for b in blocks]
+    t["gb"] = block_rec(z.getblock(start))
+    ops = []
+    if blocks:
+        for _ in range(nops):
+            bi = rng.randrange(len(blocks))
+            rec = t["blocks"][bi]
+            n = len(rec["ia"])
+            if n == 0:
+                continue
+            pos = [a - rec["ia"][0] for a in rec["ia"]] + [rec["len"]]
+            fresh = z.getblock(rec["ia"][0])
+            if fresh is None:
+                continue
+            x = rng.random()
+            if x < 0.5:
+                i0 = rng.randrange(0, n)
+                i1 = rng.randrange(i0 + 1, n + 1)
+                sta, sto = pos[i0], pos[i1]
+                if rng.random() < 0.12 and rec["len"] > n:      # off an instruction boundary
+                    sta = rng.randrange(0, rec["len"])
+                    sto = rng.randrange(sta, rec["len"] + 1)
+                r = fresh[sta:sto]
+                ops.append({"op": "slice", "b": bi + 1, "sta": sta, "sto": sto, "res": block_rec(r)})
+            else:
+                at = rec["ia"][rng.randrange(n)]
+                if rng.random() < 0.12:
+                    at = rec["ia"][0] + rng.randrange(0, rec["len"] + 2)
+                nl = fresh.cut(cpu.cst(at, cpu.PC().size))
+                ops.append({"op": "cut", "b": bi + 1, "at": at, "nl": int(nl), "res": block_rec(fresh)})
+    t["ops"] = ops
 
 
 def sweep_job(args):
@@ -324,7 +357,10 @@ def sweep_job(args):
             starts = sorted(rng.sample(range(len(buf)), min(len(buf), int(all_starts))))
         for s in starts:
             tid += 1
-            out.append(sweep_trace(tid, isa, src, buf, s, rng))
+            rs = "%s/%d/%d/%d" % (isa, seed, tid, s)
+            t = sweep_trace(tid, isa, src, buf, s, random.Random(rs))
+            t["rs"] = rs
+            out.append(t)
     return {"isa": isa, "traces": out, "classes": sorted("%d%s" % k for k in tab)}
 
 
@@ -361,8 +397,9 @@ def run_history(tid, isa, cpu, buf, steps, dom, meta=None):
     if meta:
         t["meta"] = meta
     try:
-        S = list(z.sequence(cpu.cst(0, pcs)))
-    except Exception as e:
+        with cpu_limit(20):
+            S = list(z.sequence(cpu.cst(0, pcs)))
+    except (Exception, Timeout) as e:
         return {"t": tid, "kind": "aborted", "isa": isa, "sig": "<".join(exc_sig(e)[:4])}
     t["S"] = [[ival(i.address), int(i.length)] + list(flags_of(i)) for i in S]
     g = cfg.graph()
@@ -371,25 +408,10 @@ def run_history(tid, isa, cpu, buf, steps, dom, meta=None):
     for st in steps:
         r = {"op": st[0], "exc": "", "sig": []}
         try:
-            if st[0] == "add":
-                b = z.getblock(st[1])
-                if b is None:
-                    r["op"] = "skip"
+            with cpu_limit(10):
+                if not _history_step(st, r, z, g, nodes, cfg):
                     continue
-                r["bd"] = [ival(i.address) for i in b.instr] + [ival(b.instr[-1].address) + int(b.instr[-1].length)]
-                n = cfg.node(b)
-                nodes.append(n)
-                g.add_vertex(n)
-            elif st[0] == "link":
-                r["x"], r["y"] = st[1], st[2]
-                nx, ny = node_at(g, st[1]), node_at(g, st[2])
-                if nx is None or ny is None or nx.c is None or ny.c is None:
-                    continue      # only between vertices of the graph that are mapped in the support
-                g.add_edge(cfg.link(nx, ny))
-            elif st[0] == "readd":
-                r["n"] = st[1]
-                g.add_vertex(nodes[st[1] - 1])
-        except Exception as e:
+        except (Exception, Timeout) as e:
             r["exc"] = type(e).__name__
             r["sig"] = exc_sig(e)
         r.update(graph_state(g))
@@ -400,12 +422,48 @@ def run_history(tid, isa, cpu, buf, steps, dom, meta=None):
     return t
 
 
+def _history_step(st, r, z, g, nodes, cfg):
+    """one API call on the real graph; False when the step does not apply (nothing is logged)"""
+    if st[0] == "add":
+        b = z.getblock(st[1])
+        if b is None:
+            return False
+        r["bd"] = [ival(i.address) for i in b.instr] + [ival(b.instr[-1].address) + int(b.instr[-1].length)]
+        n = cfg.node(b)
+        nodes.append(n)
+        g.add_vertex(n)
+    elif st[0] == "addrun":
+        # any contiguous run of the stream (no sweep yields it): a block built from the sweep's instructions
+        import itertools
+        from amoco import code
+        ins = list(itertools.islice(z.sequence(z.prog.cpu.cst(st[1], z.prog.cpu.PC().size)), st[2]))
+        if len(ins) != st[2]:
+            return False
+        b = code.block(ins)
+        r["op"] = "add"
+        r["bd"] = [ival(i.address) for i in b.instr] + [ival(b.instr[-1].address) + int(b.instr[-1].length)]
+        n = cfg.node(b)
+        nodes.append(n)
+        g.add_vertex(n)
+    elif st[0] == "link":
+        r["x"], r["y"] = st[1], st[2]
+        nx, ny = node_at(g, st[1]), node_at(g, st[2])
+        if nx is None or ny is None or nx.c is None or ny.c is None:
+            return False      # only between vertices of the graph that are mapped in the support
+        g.add_edge(cfg.link(nx, ny))
+    elif st[0] == "readd":
+        r["n"] = st[1]
+        g.add_vertex(nodes[st[1] - 1])
+    return True
+
+
 def replay_chunk(args):
     """worker: replay TLC behaviours of a spool byte range on real graphs; returns graph traces.
     hosts: list of (isa, unit) eligible for this generator; which: 'one' (rotate) or 'all'."""
     quiet()
     from . import tlc
     path, lo, hi, seed, stride, offset, hosts, which, tid0, tag = args
+    wide = tag.startswith("wide")
     rng = random.Random("%s/%d/%d" % (tag, seed, lo))
     H = []
     for isa, unit in hosts:
@@ -437,14 +495,16 @@ def replay_chunk(args):
                 addr.append(addr[-1] + l * host.unit)
             steps = []
             for r in h:
-                if r["op"] == "add":
+                if r["op"] == "add" and wide:
+                    steps.append(("addrun", addr[r["s"] - 1], r["e"] - r["s"]))
+                elif r["op"] == "add":
                     steps.append(("add", addr[r["s"] - 1]))
                 elif r["op"] == "link":
                     steps.append(("link", r["x"] * host.unit, r["y"] * host.unit))
                 else:
                     steps.append(("readd", r["n"]))
             tid += 1
-            t = run_history(tid, host.isa, host.cpu, buf, steps, True,
+            t = run_history(tid, host.isa, host.cpu, buf, steps, not wide,
                             meta={"L": L, "F": F, "br": [r.get("br", r["op"]) for r in h], "gen": tag})
             if t["kind"] == "graph":
                 got = [[x[1] // host.unit if x[1] % host.unit == 0 else -1, "d" if x[3] else ("c" if x[2] else "n")] for x in t["S"]]
